@@ -160,3 +160,56 @@ pub fn run() -> i32 {
         0
     }
 }
+
+
+/// C13 over kernel sockets: the same bytes with a 50 ms and with a long pause between two
+/// segments must give the same requests to the application and the same answers.
+pub fn run_pauses() -> i32 {
+    let dir = crate::infra::verif_dir();
+    let secs: u64 = std::env::var("VERIF_PAUSE_SECS").ok().and_then(|s| s.parse().ok()).unwrap_or(65);
+    let exe = dir.join("target").join("plain").join("release").join("realsock");
+    let out = match std::process::Command::new(&exe).arg("--pauses").arg(secs.to_string()).output() {
+        Ok(o) => o,
+        Err(e) => {
+            println!("MACHINERY-ERROR: cannot run {}: {}", exe.display(), e);
+            return 2;
+        }
+    };
+    let v: Value = match serde_json::from_slice(&out.stdout) {
+        Ok(v) if out.status.success() => v,
+        _ => {
+            println!("MACHINERY-ERROR: realsock --pauses failed: {}", String::from_utf8_lossy(&out.stderr));
+            return 2;
+        }
+    };
+    let rows = v["pause_rows"].as_array().cloned().unwrap_or_default();
+    let mut bad = Vec::new();
+    let mut compared = 0;
+    for r in rows.iter().filter(|r| r["pause_ms"].as_u64().unwrap_or(0) > 1000) {
+        let base = rows.iter().find(|b| b["transport"] == r["transport"] && b["case"] == r["case"] && b["pause_ms"].as_u64().unwrap_or(0) <= 1000);
+        match base {
+            Some(b) => {
+                compared += 1;
+                if b["delivered"] != r["delivered"] || b["statuses"] != r["statuses"] || b["end_of_stream_seen"] != r["end_of_stream_seen"] {
+                    bad.push(json!({"paused": r, "unpaused": b}));
+                }
+            }
+            None => bad.push(json!({"paused": r, "unpaused": null})),
+        }
+    }
+    let report = json!({"pause_seconds": secs, "pairs_compared": compared, "differences": bad, "rows": rows});
+    let _ = std::fs::create_dir_all(dir.join("evidence"));
+    let file = dir.join("evidence").join("conformance-pauses.json");
+    std::fs::write(&file, serde_json::to_string_pretty(&report).unwrap()).expect("write");
+    println!("pauses: {} conversations over kernel sockets (TCP and UNIX) replayed with a {} s silence between two segments, {} differ from the unpaused run", compared, secs, report["differences"].as_array().unwrap().len());
+    if compared < 10 {
+        println!("MACHINERY-ERROR: only {} of 10 paused conversations could be compared", compared);
+        return 2;
+    }
+    for d in report["differences"].as_array().unwrap() {
+        println!("VIOLATION property=C13 replay={}", file.display());
+        println!("  key=pause:{}:{} : with a {} s pause {} / {:?}; without {} / {:?}", d["paused"]["transport"].as_str().unwrap_or(""), d["paused"]["case"].as_str().unwrap_or(""), secs,
+            d["paused"]["delivered"], d["paused"]["statuses"].to_string(), d["unpaused"]["delivered"], d["unpaused"]["statuses"].to_string());
+    }
+    if report["differences"].as_array().unwrap().is_empty() { 0 } else { 1 }
+}
